@@ -21,7 +21,7 @@
 (*             n_true / n_false (non-vacuity: how often the reference side *)
 (*             was true / false among the definite evaluations)            *)
 (***************************************************************************)
-EXTENDS MiniGringo, Analysis, Json, IOUtils, FiniteSetsExt, SequencesExt
+EXTENDS MiniGringo, Analysis, Tptp, Json, IOUtils, FiniteSetsExt, SequencesExt
 
 Rec == ndJsonDeserialize(IOEnv.VERIF_TRACE)
 Lo == atoi(IOEnv.VERIF_LO)          \* this JVM handles lines Lo .. Hi (sharding)
@@ -655,8 +655,84 @@ EvalAccept(r) ==
         ELSE IF refused /\ emitted THEN Out(r, "C11.refused_iff_a_condition_fails", BadT([note |-> "error and problems"]), "")
         ELSE Out(r, "C11.refused_iff_a_condition_fails", [OkT EXCEPT !.t = IF why = "" THEN 1 ELSE 0, !.f = IF why = "" THEN 0 ELSE 1], why)]
 
+\* ---------------------------------------------------------------- kinds "tptp" and "tffproblem": C06, C09, C12
+\* classical equivalence of two closed-up-to-placeholders formulas, for every placeholder valuation
+EquivClosed(f1, f2) ==
+  LET keys == FreeKeys(<<f1, f2>>)
+  IN OverEnvs(keys, LAMBDA e : CLEquiv(Ground(f1, e), Ground(f2, e), e))
+\* r.tff: the tree the strict reader produced for anthem's rendering of r.f; r.decls: the declarations a problem would carry
+EvalTptp(r) ==
+  LET tab == SymTable(r.decls)
+      types == KnownTypes(r.decls)
+      why == FormWhy(r.tff, <<>>, tab, types)
+  IN IF why # "" THEN <<Out(r, "C06.rendering_is_well_typed", BadT([note |-> why]), "")>>
+     ELSE <<Out(r, "C06.rendering_is_well_typed", OkT, ""),
+            Out(r, "C06.rendering_preserves_meaning", EquivClosed(FormS(r.tff, <<>>, tab, RankOf(r.syms)), r.f), "")>>
+
+PreambleNames == {"p__is_integer__def_ax", "p__is_symbolic__def_ax", "general_universe_ax", "f__integer__def_ax", "f__symbolic__def_ax",
+                  "numeral_ordering_ax", "antisymmetric_ordering_ax", "transitive_ordering_ax", "strongly_connected_ordering_ax",
+                  "p__less__def_ax", "p__greater_equal__def_ax", "p__greater__def_ax", "minimal_element_ax",
+                  "numerals_less_than_symbols_ax", "maximal_element_ax"}
+IsOrderName(nm) == Len(nm) > 13 /\ SubSeq(nm, 1, 13) = "symbol_order_"
+\* kind "tffproblem": r.nodes (reader output for the problem text), r.source (the formulas of the problem as trees: name, conj, f),
+\* r.syms (symbolic constants of the source formulas, byte order), r.preds (for strong equivalence: the program predicates)
+EvalProblem(r) ==
+  LET why == ProblemWhy(r.nodes)
+      tab == SymTable(r.nodes)
+      rank == RankOf(r.syms)
+      fs == Forms(r.nodes)
+      srcNames == {r.source[k].name : k \in DOMAIN r.source}
+      own == SelectSeq(fs, LAMBDA n : n.name \notin srcNames)          \* axioms anthem adds on its own
+      user == SelectSeq(fs, LAMBDA n : n.name \in srcNames)
+      orderAx == SelectSeq(own, LAMBDA n : IsOrderName(n.name))
+      preamble == SelectSeq(own, LAMBDA n : ~IsOrderName(n.name))
+      \* C12: truth of every own axiom under the standard interpretation (no user predicate occurs in them)
+      ownVals == [k \in DOMAIN own |-> Ground(FormS(own[k].f, <<>>, tab, rank), EmptyEnv).k]
+      ConstName(t) == IF t.k = "app" /\ t.f = "f__symbolic__" /\ Len(t.args) = 1 /\ t.args[1].k = "app" THEN t.args[1].f ELSE "?"
+      chain == [k \in DOMAIN orderAx |-> IF orderAx[k].f.k = "patom" /\ orderAx[k].f.p = "p__less__" /\ Len(orderAx[k].f.args) = 2
+                                         THEN <<ConstName(orderAx[k].f.args[1]), ConstName(orderAx[k].f.args[2])>> ELSE <<"?", "?">>]
+      expected == [k \in 1..(IF Len(r.syms) = 0 THEN 0 ELSE Len(r.syms) - 1) |-> <<r.syms[k], r.syms[k + 1]>>]
+      \* C06 inside the problem: each user formula of the text means what its source formula means
+      SrcOf(nm) == r.source[CHOOSE k \in DOMAIN r.source : r.source[k].name = nm]
+      roleOk == \A k \in DOMAIN user : (user[k].role = "conjecture") = SrcOf(user[k].name).conj
+      meaning == [k \in DOMAIN user |-> EquivClosed(FormS(user[k].f, <<>>, tab, rank), SrcOf(user[k].name).f)]
+      meaningAll == FoldSet(LAMBDA k, acc : MergeT(acc, meaning[k]), Zero, DOMAIN user)
+  IN IF why # "" THEN <<Out(r, "C09.problem_is_wellformed_tff", BadT([note |-> why]), "")>>
+     ELSE <<Out(r, "C09.problem_is_wellformed_tff", OkT, ""),
+            Out(r, "C09.text_carries_exactly_the_source_formulas",
+                IF Len(user) = Len(r.source) /\ roleOk THEN OkT ELSE BadT([note |-> "formulas of the text and of the problem differ in number or role"]), ""),
+            Out(r, "C06.problem_formulas_preserve_meaning", meaningAll, ""),
+            Out(r, "C12.own_axioms_true_in_standard_interpretation",
+                IF \E k \in DOMAIN own : ownVals[k] = "F"
+                THEN BadT([note |-> "an axiom anthem adds is false under the standard interpretation",
+                           axiom |-> own[CHOOSE k \in DOMAIN own : ownVals[k] = "F"].name])
+                ELSE IF \E k \in DOMAIN preamble : preamble[k].name \notin PreambleNames
+                THEN BadT([note |-> "an axiom that is neither from the user's files nor of a known kind",
+                           axiom |-> preamble[CHOOSE k \in DOMAIN preamble : preamble[k].name \notin PreambleNames].name])
+                ELSE [OkT EXCEPT !.n = Len(own)], ""),
+            Out(r, "C12.symbol_order_is_a_covering_chain",
+                IF chain = expected THEN OkT
+                ELSE BadT([note |-> "the ordering axioms are not the chain of all symbolic constants in byte order", got |-> chain, expected |-> expected]), "")>>
+
+\* strong equivalence: every h-implies-t axiom holds whenever H is below T (all pairs over the atoms the axioms mention)
+EvalTransition(r) ==
+  LET ax == SelectSeq(r.source, LAMBDA x : ~x.conj /\ x.transition)
+      g == GroundAll([k \in DOMAIN ax |-> ax[k].f], EmptyEnv)
+      base == {<<SubSeq(a[1], 2, Len(a[1])), a[2]>> : a \in PAtoms(g)}
+      nb == Numbering(base)
+      core == 1..(IF nb.n <= HTCap THEN nb.n ELSE HTCap)
+      res == FoldSet(LAMBDA Tc, a1 : FoldSet(LAMBDA Hc, a2 :
+                 LET I == PrefixAtoms(UnIndex(Hc, nb), "h") \cup PrefixAtoms(UnIndex(Tc, nb), "t")
+                 IN TallyE(a2, PCI(g, I), 2, [H |-> UnIndex(Hc, nb), T |-> UnIndex(Tc, nb)]), a1, SUBSET Tc), ZeroE, SUBSET core)
+  IN <<Out(r, "C12.transition_axioms_hold_when_H_below_T",
+           [n |-> res.n, unk |-> res.unk, t |-> res.t, f |-> res.f, dis |-> res.d1 + res.d2,
+            wit |-> IF res.d2 > 0 THEN [H |-> res.w2.H, T |-> res.w2.T, anthem |-> "a transition axiom is false", reference |-> "H is below T"] ELSE <<>>,
+            groups |-> 1, ident |-> IF nb.n = 0 THEN 1 ELSE 0, atoms |-> nb.n], "")>>
+
 EvalRecord(r) ==
   CASE r.kind = "rule" -> EvalRule(r)
+    [] r.kind = "tptp" -> EvalTptp(r)
+    [] r.kind = "tffproblem" -> EvalProblem(r) \o (IF r.strong THEN EvalTransition(r) ELSE <<>>)
     [] r.kind = "analyze" -> EvalAnalyze(r)
     [] r.kind = "external" /\ Prop = "C11" -> EvalAccept(r)
     [] r.kind = "external" -> EvalExternal(r)
